@@ -88,6 +88,9 @@ SPECS["C06"] = dict(
         "Woodpile.Props.C06.reader_std_judge",
         "Woodpile.Props.C06.reader_total",
         "Woodpile.Props.C06.reader_schedule_independent",
+        "Woodpile.Props.C06.reader_generic_judge",
+        "Woodpile.Props.C06.std_judges_ok",
+        "Woodpile.Props.C06.clamp_in_code",
         "Woodpile.Props.C06.resync_segment",
         "Woodpile.Props.C06.resync",
     ],
@@ -114,8 +117,9 @@ SPECS["C06"] = dict(
                 "oracle re-checks the property on the real results."),
     level_note=("Trusted: Lean kernel + 3 standard axioms; the correspondence harness and its generators; the SplitIndep hypothesis "
                 "until the coordinator discharges it from the decoder refinement theorem. Arbitrary FnMut judges are modelled "
-                "(history-dependent) and exercised by correspondence (scripted verdict lists), but the theorems cover the two "
-                "judges the property names; a judge answering SkipRecord on an empty range makes the real code panic "
+                "(history-dependent), exercised by correspondence (scripted verdict lists) and covered by reader_generic_judge "
+                "(never panics, output before the first None is a sub-list of the KeepGoing output) under the side condition "
+                "JudgeOK; a judge answering SkipRecord on an empty range makes the real code panic "
                 "(assert_eq!(range.is_empty(), state == SkipSentinel)), reproduced by model and harness alike (reported as an "
                 "observation). last_sentinel_offset is compared by correspondence and checked by the oracle, not yet a theorem."),
     trusted_base=["std::io::Read::chain semantics", "SplitIndep prod (discharged by the C01/C07 decoder refinement theorem)"],
